@@ -1,4 +1,5 @@
 import AtsimModel.Model.Cutoff
+import AtsimModel.Gen.Logic
 import AtsimModel.Model.Eam
 import Mathlib.Tactic.Ring
 import Mathlib.Tactic.FieldSimp
@@ -24,38 +25,49 @@ open Atsim
 
 /-! ### decision table (exact arithmetic) -/
 
-/-- a non-positive value, wherever it is given, is rejected -/
+/-- a non-positive value, wherever it is given, is rejected (with whichever complaint the code reaches first) -/
 theorem C11_rejects_nonpositive (nr : Option Int) (dr cutoff : Option Rat)
     (h : (∃ n, nr = some n ∧ n ≤ 0) ∨ (∃ d, dr = some d ∧ d ≤ 0) ∨ (∃ c, cutoff = some c ∧ c ≤ 0)) :
-    initCutoff ratOps nr dr cutoff = .error .nonPositive := by
-  rcases h with ⟨n, rfl, hn⟩ | ⟨d, rfl, hd⟩ | ⟨c, rfl, hc⟩
-  · simp [initCutoff, hn]
-  · simp [initCutoff, ratOps, hd]
-  · simp [initCutoff, ratOps, hc]
+    ∃ e, initCutoff ratOps nr dr cutoff = .error e := by
+  have key : (checkPositive ratOps nr dr cutoff).isSome = true := by
+    unfold checkPositive
+    rcases h with ⟨n, rfl, hn⟩ | ⟨d, rfl, hd⟩ | ⟨c, rfl, hc⟩ <;> (repeat' split) <;> simp_all [ratOps] <;> first | omega | linarith
+  match hcp : checkPositive ratOps nr dr cutoff with
+  | some e => exact ⟨e, by simp [initCutoff, hcp]⟩
+  | none => simp [hcp] at key
+
+/-- a one-row grid cannot define a step: rejected (it used to end in a division by zero; C16) -/
+theorem C11_rejects_one_row (dr cutoff : Option Rat) : initCutoff ratOps (some 1) dr cutoff = .error .tooFewRows := by
+  simp [initCutoff, checkPositive]
 
 /-- giving all three is rejected -/
-theorem C11_rejects_all_three (n : Int) (d c : Rat) (hn : 0 < n) (hd : 0 < d) (hc : 0 < c) :
+theorem C11_rejects_all_three (n : Int) (d c : Rat) (hn : 2 ≤ n) (hd : 0 < d) (hc : 0 < c) :
     initCutoff ratOps (some n) (some d) (some c) = .error .allThree := by
-  simp [initCutoff, ratOps, not_le.mpr hn, not_le.mpr hd, not_le.mpr hc]
+  have hn0 : ¬ n ≤ 0 := by omega
+  have hn1 : ¬ n < 2 := by omega
+  simp [initCutoff, checkPositive, ratOps, hn0, hn1, not_le.mpr hd, not_le.mpr hc]
 
 /-- a step alone is rejected -/
 theorem C11_rejects_step_alone (d : Rat) (hd : 0 < d) : initCutoff ratOps none (some d) none = .error .stepAlone := by
-  simp [initCutoff, ratOps, not_le.mpr hd]
+  simp [initCutoff, checkPositive, ratOps, not_le.mpr hd]
 
 /-- nr with dr gives cutoff = (nr-1)*dr -/
 theorem C11_nr_dr (n : Int) (d : Rat) (hn : 2 ≤ n) (hd : 0 < d) :
     initCutoff ratOps (some n) (some d) none = .ok (some n, some (((n : Rat) - 1) * d)) := by
   have hn0 : ¬ n ≤ 0 := by omega
+  have hn2 : ¬ n < 2 := by omega
   have hn1 : (0 : Rat) < (n : Rat) - 1 := by
     have : (2 : Rat) ≤ (n : Rat) := by exact_mod_cast hn
     linarith
   have hc : ¬ ((n : Rat) - 1) * d ≤ 0 := not_le.mpr (mul_pos hn1 hd)
-  simp [initCutoff, ratOps, hn0, not_le.mpr hd, hc]
+  simp [initCutoff, checkPositive, ratOps, hn0, hn2, not_le.mpr hd, hc]
 
 /-- cutoff with nr is taken as given (dr = cutoff/(nr-1) is then computed by the tabulation: `tabStep`) -/
-theorem C11_cutoff_nr (n : Int) (c : Rat) (hn : 0 < n) (hc : 0 < c) :
+theorem C11_cutoff_nr (n : Int) (c : Rat) (hn : 2 ≤ n) (hc : 0 < c) :
     initCutoff ratOps (some n) none (some c) = .ok (some n, some c) := by
-  simp [initCutoff, ratOps, not_le.mpr hn, not_le.mpr hc]
+  have hn0 : ¬ n ≤ 0 := by omega
+  have hn2 : ¬ n < 2 := by omega
+  simp [initCutoff, checkPositive, ratOps, hn0, hn2, not_le.mpr hc]
 
 /-- cutoff with dr, cutoff a whole multiple k of dr: exactly k+1 rows ending at cutoff -/
 theorem C11_cutoff_dr (k : Nat) (d : Rat) (hk : 1 ≤ k) (hd : 0 < d) :
@@ -67,14 +79,15 @@ theorem C11_cutoff_dr (k : Nat) (d : Rat) (hk : 1 ≤ k) (hd : 0 < d) :
   have hfl : ((k : Rat) * d / d).floor = (k : Int) := by
     rw [hq]; exact Rat.floor_intCast _
   have hn0 : ¬ ((k : Int) + 1 ≤ 0) := by omega
-  simp [initCutoff, ratOps, not_le.mpr hd, hc, hfl, hn0]
+  have hn2 : ¬ ((k : Int) + 1 < 2) := by omega
+  simp [initCutoff, checkPositive, ratOps, not_le.mpr hd, hc, hfl, hn0, hn2]
 
 /-- omitted values: nothing is derived, the factories' defaults apply (cutoff 10.0, nr 1001; cutoff_rho 100.0, nrho 1001) -/
 theorem C11_defaults :
     initCutoff ratOps none none none = .ok (none, none) ∧
     withDefaults (none, none) 1001 10 = (1001, 10) ∧ withDefaults (none, none) 1001 100 = (1001, 100) ∧
     (∀ c : Rat, withDefaults (none, some c) 1001 10 = (1001, c)) ∧ (∀ n : Int, withDefaults (some n, none) 1001 10 = (n, 10)) := by
-  refine ⟨by simp [initCutoff], by simp [withDefaults], by simp [withDefaults], ?_, ?_⟩
+  refine ⟨by simp [initCutoff, checkPositive], by simp [withDefaults], by simp [withDefaults], ?_, ?_⟩
   · intro c; simp [withDefaults]
   · intro n; simp [withDefaults]
 
@@ -223,4 +236,79 @@ theorem C11_kernel_steps (cut cutrho : Rat) (nr nrho : Nat) :
     kernel_close
   · kernel_unfold [k_eam_drho]
     kernel_close
+/-! ## The code itself: `_check_positive`, `_init_cutoff`, `_rows_for_step` regenerated from the source
+
+`Atsim.Gen.Logic.check_positive / init_cutoff / rows_for_step` are produced by `translator/py2lean_logic.py` from the text of
+`_TabulationCutoff` on every run (`is None` tests → matches on `Option`, `raise` → `.error` with the complaint identified by its message, the call of
+`_rows_for_step` → the parameter `rows`).  They ARE the model's functions: every theorem above about `initCutoff` is a theorem about the code as written now. -/
+namespace CodeTie
+open Atsim.Gen.Logic
+
+def errMap : LogicErr → CutErr
+  | .allThree => .allThree | .stepAlone => .stepAlone | .nonPositive => .nonPositive | .tooFewRows => .tooFewRows
+
+def mapRes {α : Type} : Except LogicErr α → Except CutErr α
+  | .ok a => .ok a
+  | .error e => .error (errMap e)
+
+/-- the model's arithmetic record with the row-count rule left as a parameter, exactly as the generated `init_cutoff` has it -/
+def opsOf (rows : Rat → Rat → Int) : CutOps Rat :=
+  { le0 := fun x => decide (x ≤ 0), mulPred := fun n d => ((n : Rat) - 1) * d, rows := rows }
+
+theorem opsOf_floor : opsOf (fun c d => (c / d).floor + 1) = ratOps := rfl
+
+theorem check_positive_eq (rows : Rat → Rat → Int) (nr : Option Int) (dr cutoff : Option Rat) :
+    mapRes (check_positive nr dr cutoff) =
+      (match checkPositive (opsOf rows) nr dr cutoff with | some e => .error e | none => .ok ()) := by
+  rcases nr with _ | n <;> rcases dr with _ | d <;> rcases cutoff with _ | c <;>
+    simp only [check_positive, checkPositive, opsOf] <;> (repeat' split) <;> simp_all [mapRes, errMap] <;>
+    first
+      | omega
+      | linarith
+      | (split_ifs at * <;> first | omega | linarith | simp_all)
+
+/-- a `_check_positive` call followed by more code: the complaint, if any, is the model's; otherwise what follows -/
+theorem bind_cp {β : Type} (rows : Rat → Rat → Int) (a : Option Int) (b c : Option Rat) (K : Except LogicErr β) :
+    mapRes (andThen (check_positive a b c) fun _ => K) =
+      (match checkPositive (opsOf rows) a b c with | some e => .error e | none => mapRes K) := by
+  have h := check_positive_eq rows a b c
+  cases hc : check_positive a b c <;> cases hm : checkPositive (opsOf rows) a b c <;> simp_all [mapRes, andThen]
+
+end CodeTie
+
+/-- **code tie**: the regenerated `_check_positive` raises exactly the model's complaint, or nothing -/
+theorem C11_code_check_positive (nr : Option Int) (dr cutoff : Option Rat) :
+    CodeTie.mapRes (Atsim.Gen.Logic.check_positive nr dr cutoff) =
+      (match checkPositive ratOps nr dr cutoff with | some e => .error e | none => .ok ()) :=
+  CodeTie.check_positive_eq _ nr dr cutoff
+
+/-- **code tie**: the regenerated `_init_cutoff`, with any row-count rule `rows` plugged in for `_rows_for_step`, is the model's `initCutoff` -
+    same outcome, same complaint, same derived values - for every presence/sign pattern and every value -/
+theorem C11_code_init_cutoff (rows : Rat → Rat → Int) (nr : Option Int) (dr cutoff : Option Rat) :
+    CodeTie.mapRes (Atsim.Gen.Logic.init_cutoff rows nr dr cutoff) = initCutoff (CodeTie.opsOf rows) nr dr cutoff := by
+  unfold Atsim.Gen.Logic.init_cutoff initCutoff
+  rw [CodeTie.bind_cp rows]
+  cases hcp : checkPositive (CodeTie.opsOf rows) nr dr cutoff with
+  | some e => rfl
+  | none =>
+    rcases nr with _ | n <;> rcases dr with _ | d <;> rcases cutoff with _ | c <;>
+      simp only [Int.cast_sub, Int.cast_one] <;>
+      (try rw [CodeTie.bind_cp rows]) <;>
+      (try simp only [hcp]) <;>
+      first
+        | rfl
+        | (simp only [CodeTie.opsOf] at *; rfl)
+        | (simp_all [CodeTie.opsOf, CodeTie.mapRes, CodeTie.errMap])
+
+/-- in exact arithmetic (`rows = floor(cutoff/dr) + 1`) that is `initCutoff ratOps`, the function all decision-table theorems above are about -/
+theorem C11_code_init_cutoff_exact (nr : Option Int) (dr cutoff : Option Rat) :
+    CodeTie.mapRes (Atsim.Gen.Logic.init_cutoff (fun c d => (c / d).floor + 1) nr dr cutoff) = initCutoff ratOps nr dr cutoff := by
+  rw [C11_code_init_cutoff, CodeTie.opsOf_floor]
+
+
+/-- **code tie**: the regenerated `_rows_for_step` (binary64, same operations in the same order) is the model's `rowsSnap`, the function the
+    decimal-lattice sweep compares bit for bit and `C11_fixed_*` evaluate in the kernel -/
+theorem C11_code_rows_for_step (cutoff dr : Float) : Atsim.Gen.Logic.rows_for_step cutoff dr = rowsSnap cutoff dr := by
+  simp only [Atsim.Gen.Logic.rows_for_step, rowsSnap, decide_eq_true_eq]
+
 end Atsim.C11
